@@ -1,5 +1,6 @@
 """MIR CFG utilities: successors, dominators, must-pass-through, def-use,
 operand provenance.  Paths ignore unwind/cleanup edges (DESIGN §8a)."""
+import re
 from functools import lru_cache
 
 
@@ -275,6 +276,15 @@ class Body:
                     out.extend(self.origins(node["rv"]["op"], depth + 1))
                 else:
                     out.append(("rv", node["rv"]["k"]))
+            return out or [o]
+        if o and o[0] == "local" and len(o[2]) == 1 and re.fullmatch(r"\.\d+", str(o[2][0])) and depth < 4:
+            # one field of a tuple / struct local that is assigned as a whole in several places (`let (a, b) = if … { (1, 2) } else { (3, 4) }`)
+            n_ = int(o[2][0][1:])
+            out = []
+            for bb, idx, kind, node in self.defs.get(o[1], []):
+                if kind != "assign" or node.get("lhs", {}).get("p") or node["rv"]["k"] != "agg" or n_ >= len(node["rv"].get("ops", [])):
+                    return [o]
+                out.extend(self.origins(node["rv"]["ops"][n_], depth + 1))
             return out or [o]
         return [o]
 
